@@ -938,7 +938,7 @@ impl Monitor for M {
 
     fn phases(&self, tier: Tier) -> Vec<Phase> {
         vec![
-            Phase::new("known", 1).batch(1),
+            Phase::new("known", 1).batch(1).exhaustive("the fixed reproducer of the listed finding"),
             Phase::new("opcodes", 256)
                 .batch(4)
                 .exhaustive("all 256 values of the first byte of a command, with canonical operands and every truncation"),
